@@ -3,6 +3,7 @@
 -/
 import NiftyVerif.Lemmas.Coo
 import NiftyVerif.Model.LinOps
+import Mathlib.Algebra.Field.Basic
 
 namespace NiftyVerif
 open Coo LinOps
@@ -171,6 +172,42 @@ theorem gather_perm_inverse' {cj : K → K} (hc1 : cj 1 = 1) (N : Nat) (src inv 
   rw [this, sumN_ite_eq N r hr y]
 
 end gather
+
+section weights
+variable {F : Type} [Field F]
+
+theorem powN_mul_inv (a : F) (ha : a ≠ 0) (n : Nat) : powN a n * powN a⁻¹ n = 1 := by
+  induction n with
+  | zero => simp [powN]
+  | succ n ih =>
+    simp only [powN]
+    calc a * powN a n * (a⁻¹ * powN a⁻¹ n) = (a * a⁻¹) * (powN a n * powN a⁻¹ n) := by ring
+      _ = 1 := by rw [ih, mul_inv_cancel₀ ha]; ring
+
+theorem powI_neg (a : F) (ha : a ≠ 0) (p : Int) : powI a p * powI a (-p) = 1 := by
+  unfold powI
+  rcases lt_trichotomy p 0 with h | h | h
+  · have h1 : ¬ p ≥ 0 := by omega
+    have h2 : -p ≥ 0 := by omega
+    simp only [h1, h2, if_true, if_false, neg_neg]
+    rw [mul_comm]; exact powN_mul_inv a ha _
+  · subst h; simp [powN]
+  · have h1 : p ≥ 0 := by omega
+    have h2 : ¬ -p ≥ 0 := by omega
+    simp only [h1, h2, if_true, if_false, neg_neg]
+    exact powN_mul_inv a ha _
+
+theorem prodK_mul_map {α : Type} (l : List α) (f g : α → F) (h : ∀ a ∈ l, f a * g a = 1) :
+    prodK (l.map f) * prodK (l.map g) = 1 := by
+  induction l with
+  | nil => simp [prodK]
+  | cons a l ih =>
+    simp only [List.map_cons, prodK]
+    calc f a * prodK (l.map f) * (g a * prodK (l.map g))
+        = (f a * g a) * (prodK (l.map f) * prodK (l.map g)) := by ring
+      _ = 1 := by rw [h a (List.mem_cons_self), ih (fun b hb => h b (List.mem_cons_of_mem _ hb))]; ring
+
+end weights
 
 section mask
 
